@@ -2,7 +2,7 @@
    subsystem), theorems only.  Model: C06/Model.v ([step true] = the code with fixes/F06.patch,
    [step false] = the original code).  Each theorem is closed by a lemma of Proofs / Order / Limits /
    InOrder / Exact / Refute and followed by Print Assumptions. *)
-From CF Require Import Common.Bytes C06.Model C06.Proofs C06.Order C06.Limits C06.InOrder C06.Exact C06.Refute.
+From CF Require Import Common.Bytes C06.Model C06.Proofs C06.Order C06.Limits C06.InOrder C06.Exact C06.Refute C06.DeckModel C06.DeckProofs C06.DeckRefute.
 Open Scope Z_scope.
 
 (* ---------------------------------------------------------------- protocol limits *)
@@ -167,3 +167,48 @@ Theorem C06_original_code_wedges :
   c_leaked (fst (run true c_init f06_history)) = false.
 Proof. exact original_code_wedges. Qed.
 Print Assumptions C06_original_code_wedges.
+
+(* ---------------------------------------------------------------- the deck-memory layer *)
+(* DeckMemory(base).read / write map a deck-relative address a to base + a of the deck memory manager's memory
+   [did]; one read and one write may be outstanding at the same time, on decks with different bases
+   (model: C06/DeckModel.v, [drun true] = the code with fixes/F06d.patch).  For every history of deck reads and
+   writes with any bases, arbitrary (late, duplicated, forged, refusing) packets, disconnects and requests on
+   other memories: every callback of the deck layer reports exactly the deck-relative address that was asked in
+   the request it belongs to. *)
+Theorem C06_deck_notifications_attributed : forall did evs, Forall (wf_devent did) evs ->
+  Forall dnote_ok (snd (drun true did (dm_init, c_init) evs)).
+Proof. exact deck_notifications_attributed. Qed.
+Print Assumptions C06_deck_notifications_attributed.
+
+(* The bytes a deck read hands over are the bytes of a completed read of memory did at address asked + base,
+   and a deck write reported done is a completed write at asked + base: with C06_read_exact_partial /
+   C06_read_in_order_exact (resp. the write theorems) for that transfer, the deck-relative read returns
+   device[base + addr, base + addr + len). *)
+Theorem C06_deck_read_passes_through : forall did evs t asked b rep dat, Forall (wf_devent did) evs ->
+  In (inr (DReadOk t asked b rep dat)) (snd (drun true did (dm_init, c_init) evs)) ->
+  exists u, In (inl (OReadOk u did (asked + b) dat)) (snd (drun true did (dm_init, c_init) evs)).
+Proof. exact deck_read_passes_through. Qed.
+Print Assumptions C06_deck_read_passes_through.
+
+Theorem C06_deck_write_passes_through : forall did evs t asked b rep, Forall (wf_devent did) evs ->
+  In (inr (DWriteOk t asked b rep)) (snd (drun true did (dm_init, c_init) evs)) ->
+  exists u, In (inl (OWriteOk u did (asked + b))) (snd (drun true did (dm_init, c_init) evs)).
+Proof. exact deck_write_passes_through. Qed.
+Print Assumptions C06_deck_write_passes_through.
+
+(* After any such history, an event the manager does not refuse ('operation ongoing') never makes one of its
+   listeners call a callback that is not there. *)
+Theorem C06_deck_listeners_never_raise : forall did evs e, Forall (wf_devent did) evs -> wf_devent did e ->
+  dev_event did (fst (fst (drun true did (dm_init, c_init) evs))) e <> None ->
+  ~ In (inr DRaise) (snd (dstep true did (fst (drun true did (dm_init, c_init) evs)) e)).
+Proof. exact deck_listeners_never_raise. Qed.
+Print Assumptions C06_deck_listeners_never_raise.
+
+(* The original deck layer (finding F06d): DeckMemory(0x20000000).write(8, ..) is reported done at
+   0x20000008 instead of 8; the repaired one reports 8. *)
+Theorem C06_original_deck_write_misattributed :
+  Forall (wf_devent 6) f06d_history /\
+  In (inr (DWriteOk 0 8 deckB (deckB + 8))) (snd (drun false 6 (dm_init, c_init) f06d_history)) /\
+  In (inr (DWriteOk 0 8 deckB 8)) (snd (drun true 6 (dm_init, c_init) f06d_history)).
+Proof. exact original_deck_write_misattributed. Qed.
+Print Assumptions C06_original_deck_write_misattributed.
